@@ -23,7 +23,9 @@ populations settled / racing with them) x populations present (handlers either k
 S started gated handlers whose client stays, I idle connections that never sent a byte, U idle keep-alive connections after one \
 exchange, H half-sent requests whose client finishes or leaves later, L started handlers whose \
 client left before close, A connections arriving after the close call, P a panicking handler x \
-extra wait_for_shutdown() waiters awaited before the call / after the call / after the return. \
+extra wait_for_shutdown() waiters awaited before the call / after the call / after the return, \
+plain .await or through futures::select! next to a ticking branch; E clients whose requests end \
+with an error response. \
 class (a) = sc|mode|timing|populations|waiter kinds; class (b) = mode|population|order by seq of \
 that uid's events and the close events (E enter, s steps, G gate opened, d/D client disconnect, \
 F done, X cancelled-drop, x drop after completion, P panic-drop, R response read, C close called, \
@@ -106,6 +108,11 @@ struct Sc {
     w_early: usize,
     w_late: usize,
     w_post: usize,
+    /// waiters that wait through `futures::select!` (FusedFuture) next to a
+    /// ticking branch, started before close(); 0 or >= 2
+    w_select: usize,
+    /// clients (before close) whose requests end with an error response
+    errs: usize,
 }
 
 impl Sc {
@@ -119,6 +126,7 @@ impl Sc {
             ('L', self.left.len()),
             ('A', self.late.len()),
             ('P', self.panics.len()),
+            ('E', self.errs),
         ] {
             if n > 0 {
                 s.push(c);
@@ -132,7 +140,8 @@ impl Sc {
                "stay": self.stay.len(), "idle_fresh": self.idle_fresh, "idle_used": self.idle_used,
                "half": self.half.iter().map(|h| json!({"finish": h.finish, "wait_close": h.wait_close, "style": h.style.tag(), "delay_ms": h.delay_ms})).collect::<Vec<_>>(),
                "left": self.left.len(), "late": self.late.len(), "panics": self.panics.len(),
-               "waiters": [self.w_early, self.w_late, self.w_post]})
+               "waiters": [self.w_early, self.w_late, self.w_post],
+               "select_waiters": self.w_select, "error_ending_clients": self.errs})
     }
 }
 
@@ -216,6 +225,8 @@ fn gen_scenario(rng: &mut Rng) -> Sc {
         w_early: rng.usize(3),
         w_late: rng.usize(3),
         w_post: rng.usize(3),
+        w_select: *rng.pick(&[0usize, 0, 2, 3]),
+        errs: *rng.pick(&[0usize, 1, 1, 2]),
     }
 }
 
@@ -454,6 +465,26 @@ fn late_client(p: &Late, env: &Env) {
     env.count(format!("late_arrival_{}", o.tag()));
 }
 
+/// requests that complete with an ERROR response (handler returns Err after its
+/// gate; unknown path; bad query) on one keep-alive connection, client stays
+fn error_client(env: &Env) {
+    let _ready = Ready(env.ready, false);
+    let Some(mut conn) = env.connect("error") else { return };
+    for path in ["/failing", "/no/such/path", "/typed?n=abc"] {
+        let uid = next_uid();
+        env.open_gate(uid);
+        if conn.send(&mk_req(env.ctx.instance, path, uid, 0, 0, 0).encode()).is_err() {
+            return;
+        }
+        let o = read_error_response(&mut conn, WD_READ);
+        env.log.push("C_RESP", uid, 0, &o.tag());
+        env.count(format!("error_ending_request_{}", o.tag()));
+        if !matches!(o, Outcome::Status(_)) {
+            return;
+        }
+    }
+}
+
 fn panic_client(uid: u64, env: &Env) -> Option<Outcome> {
     let _ready = Ready(env.ready, false);
     let mut conn = env.connect("panic")?;
@@ -557,6 +588,33 @@ pub fn run_case(out: &mut Out, seed: u64, shard: u64, case: u64, record: bool) -
             log.push("S_WAITER_RET", 0, i as i64, &format!("{r:?}"));
         });
     }
+    // waiters that poll the shutdown future through futures::select! (the reason
+    // ShutdownWaitFuture is a FusedFuture), next to a ticking branch
+    for j in 0..sc.w_select {
+        let i = n_waiters + j;
+        let mut fut = server.wait_for_shutdown();
+        let stage: u8 = (j % 2) as u8;
+        let mut rx = rx.clone();
+        let log = log.clone();
+        let tick_us = 300 + 700 * j as u64;
+        handle.spawn(async move {
+            use futures::FutureExt;
+            if rx.wait_for(|v| *v >= stage).await.is_err() {
+                return;
+            }
+            log.push("S_WAITER_START", 0, i as i64, "select");
+            let r = loop {
+                let tick = tokio::time::sleep(Duration::from_micros(tick_us)).fuse();
+                futures::pin_mut!(tick);
+                futures::select! {
+                    r = fut => break r,
+                    _ = tick => {}
+                }
+            };
+            log.push("S_WAITER_RET", 0, i as i64, &format!("{r:?}"));
+        });
+    }
+    let n_waiters = n_waiters + sc.w_select;
     drop(rx);
 
     let ready = AtomicUsize::new(0);
@@ -564,7 +622,8 @@ pub fn run_case(out: &mut Out, seed: u64, shard: u64, case: u64, record: bool) -
     let counts = Mutex::new(BTreeMap::new());
     let env = Env { addr, ctx: &ctx, log: &log, ready: &ready, incon: &incon, counts: &counts };
     let expected_ready =
-        sc.stay.len() + sc.idle_fresh + sc.idle_used + sc.half.len() + sc.left.len() + sc.panics.len();
+        sc.stay.len() + sc.idle_fresh + sc.idle_used + sc.half.len() + sc.left.len() + sc.panics.len()
+            + sc.errs;
     let mut stay_out: Vec<Option<Outcome>> = vec![];
     let mut panic_out: Vec<Option<Outcome>> = vec![];
     let mut settle_wd = false;
@@ -629,6 +688,9 @@ pub fn run_case(out: &mut Out, seed: u64, shard: u64, case: u64, record: bool) -
         for p in &sc.late {
             spawn!(move || late_client(p, env));
         }
+        for _ in 0..sc.errs {
+            spawn!(move || error_client(env));
+        }
         // opener
         let ou = &opener_uids;
         let od = &opener_delays;
@@ -656,14 +718,19 @@ pub fn run_case(out: &mut Out, seed: u64, shard: u64, case: u64, record: bool) -
             Some(us) => std::thread::sleep(Duration::from_micros(us)),
         }
         {
-            let server = server.take().unwrap();
-            let tx = tx.take().unwrap();
+            let server = server.take().expect("server taken once");
+            let tx = tx.take().expect("tx taken once");
             let log = log.clone();
             handle.spawn(async move {
+                use futures::FutureExt;
                 log.push("S_CLOSE_CALL", 0, 0, "");
                 let _ = tx.send(1);
-                let r = server.close().await;
-                log.push("S_CLOSE_RET", 0, r.is_ok() as i64, &format!("{r:?}"));
+                // close() itself may panic when the server task has died: an
+                // outcome to report, not a reason to lose the scenario
+                match std::panic::AssertUnwindSafe(server.close()).catch_unwind().await {
+                    Ok(r) => log.push("S_CLOSE_RET", 0, r.is_ok() as i64, &format!("{r:?}")),
+                    Err(_) => log.push("S_CLOSE_RET", 0, -1, "close() panicked"),
+                };
                 let _ = tx.send(2);
                 // keep the channel alive so that late subscribers see the value
                 std::future::pending::<()>().await;
@@ -692,7 +759,14 @@ pub fn run_case(out: &mut Out, seed: u64, shard: u64, case: u64, record: bool) -
         let dl = Instant::now() + Duration::from_secs(10);
         while log.count_kind("S_WAITER_RET") < n_waiters {
             if Instant::now() > dl {
-                hang = Some("waiter");
+                // which waiters are missing?
+                let evs = log.snapshot();
+                let only_select = evs
+                    .iter()
+                    .filter(|e| e.kind == "S_WAITER_START")
+                    .filter(|st| !evs.iter().any(|r| r.kind == "S_WAITER_RET" && r.n == st.n))
+                    .all(|st| st.s == "select");
+                hang = Some(if only_select { "waiter:select" } else { "waiter" });
                 break;
             }
             std::thread::sleep(Duration::from_millis(1));
@@ -716,6 +790,7 @@ pub fn run_case(out: &mut Out, seed: u64, shard: u64, case: u64, record: bool) -
             quiescent: quiescent && !settle_wd,
             witness: json!({"ident": ident, "what": match kind {
                 "close" => "every client socket is closed and every started handler has ended, yet close() has not returned 30 s later",
+                "waiter:select" => "close() returned and every plain .await waiter was released, yet a waiter that polls wait_for_shutdown() through futures::select! (FusedFuture) next to a ticking branch has not been released 10 s later",
                 _ => "close() returned, yet a wait_for_shutdown() waiter has not been released 10 s later",
             }, "handlers_all_ended": quiescent, "history": history_json(&events, 400)}),
         };
@@ -753,10 +828,25 @@ pub fn run_case(out: &mut Out, seed: u64, shard: u64, case: u64, record: bool) -
         }
     }
     let idx = index(&events);
-    let call = events.iter().find(|e| e.kind == "S_CLOSE_CALL").map(|e| e.seq).unwrap();
-    let ret_ev = events.iter().find(|e| e.kind == "S_CLOSE_RET").unwrap();
+    let (Some(call), Some(ret_ev)) = (
+        events.iter().find(|e| e.kind == "S_CLOSE_CALL").map(|e| e.seq),
+        events.iter().find(|e| e.kind == "S_CLOSE_RET"),
+    ) else {
+        rep.inconclusive("c17-close-events-missing");
+        return None;
+    };
     let ret = ret_ev.seq;
-    rep.count(&format!("close_result_{}", if ret_ev.n == 1 { "ok" } else { "err" }), 1);
+    rep.count(
+        &format!("close_result_{}", match ret_ev.n { 1 => "ok", 0 => "err", _ => "panicked" }),
+        1,
+    );
+    if ret_ev.n < 0 {
+        rep.violate(
+            format!("C17:{m}:close-panicked"),
+            json!({"ident": ident, "what": "HttpServer::close() panicked instead of returning",
+                   "history": history_json(&events, 300)}),
+        );
+    }
     let empty = UidHist::default();
     let extra = [("C", call), ("Z", ret)];
 
@@ -986,8 +1076,12 @@ pub fn run_shard(seed: u64, shard: u64, nshards: u64, total: u64) -> Out {
     while case < total {
         if HANGS.load(Ordering::SeqCst) >= 3 {
             out.rep.inconclusive("c17-skipped-after-repeated-hang-candidates");
-        } else {
+        } else if vmon::panics::catch_quiet(std::panic::AssertUnwindSafe(|| {
             run_case(&mut out, seed, shard, case, true);
+        }))
+        .is_err()
+        {
+            out.rep.inconclusive("c17-scenario-aborted-by-harness-panic");
         }
         case += nshards;
     }
@@ -1023,6 +1117,7 @@ pub fn finish(out: &mut Out, seed: u64) {
             (3, Some(h)) => {
                 let sig = match h.kind {
                     "close" => format!("C17:{}:close-hangs-at-quiescence", h.mode),
+                    "waiter:select" => format!("C17:{}:waiter-never-released:select", h.mode),
                     _ => format!("C17:{}:waiter-never-released", h.mode),
                 };
                 let mut w = h.witness;
